@@ -60,3 +60,11 @@ CLAIMS["C19"] = (
     "the phases, unconditional implication fixpoint, exclusion raise condition, guarded conversions of user text, implications codegen relies on. "
     "Found and repaired F-17 (malformed -O/-d/--flag values).",
     "Trusted: the paper argument from phases + invariants to the statement (rule docstrings / DESIGN.md C19).")
+CLAIMS["C14"] = (
+    "grammar-layer extraction vs C precedence table + parenthesisation/def-use rules over the expression renderer + enum/terminal agreement",
+    "Static, essentially complete for the *structure* clause by induction over expression trees: the embedded grammar's operator layers equal C's "
+    "precedence/associativity for these operators (deviations only reject); the renderer parenthesises every recursive rendering, so the emitted C tree "
+    "is the nmfu tree; operator tokens agree from terminal language through enum values to emitted text; !x / -x / int-as-condition desugarings; "
+    "declared width/sign select exactly that C type; all four use contexts share the one renderer. The arithmetic C performs on that tree is the "
+    "stated oracle (C standard) and is not re-decided.",
+    "Trusted: C11 6.5 precedence table encoded in rules/c14.py; shape recognisers for the parser arms (an unrecognised rewrite is reported, not skipped).")
